@@ -27,7 +27,7 @@ func c09HasExtLiteral(n ast.IsNode) bool {
 	ast.Inspect(ast.NewNode(n), func(x ast.IsNode) bool {
 		if v, ok := x.(ast.NodeValue); ok {
 			switch v.Value.(type) {
-			case types.Decimal, types.IPAddr:
+			case types.Decimal, types.IPAddr, types.Datetime, types.Duration:
 				found = true
 			}
 		}
@@ -82,7 +82,16 @@ func VerifC09_BinaryNodes() {
 func VerifC09_SpecialNodes() {
 	a, b, c := ast.Long(1), ast.String("two"), ast.Context().Access("k")
 	var n ast.Node
-	switch vrt.Choice("kind", 10) {
+	switch vrt.Choice("kind", 14) {
+	case 10, 11, 12, 13:
+		// literal VALUES of the extension types (not constructor calls): the JSON form has no
+		// literal for them, so each must come back as a call of its own constructor that
+		// evaluates to the same value
+		ip, _ := types.ParseIPAddr("10.1.2.3/24")
+		dec, _ := types.ParseDecimal("-1.5")
+		lit := []types.Value{types.NewDurationFromMillis(5400000), types.NewDatetimeFromMillis(86400001), ip, dec}[vrt.Choice("ext-literal", 4)]
+		c09Check(ast.Value(lit).Equal(c))
+		return
 	case 0:
 		n = b.Like(types.NewPattern(types.String("a*"), types.Wildcard{}, types.String("\\"), types.Wildcard{}))
 	case 1:
@@ -279,7 +288,12 @@ func VerifC09_PolicyBytes() {
 		body = eval.VGenBinary(vrt.Choice("op", eval.VOpBinaryCount), l, r)
 	case 4: // node kinds with their own JSON shape
 		a, b, c := ast.Long(1), ast.String("two"), ast.Context().Access("k")
-		switch vrt.Choice("kind", 11) {
+		switch vrt.Choice("kind", 12) {
+		case 11:
+			ip, _ := types.ParseIPAddr("10.1.2.3/24")
+			dec, _ := types.ParseDecimal("-1.5")
+			lit := []types.Value{types.NewDurationFromMillis(5400000), types.NewDatetimeFromMillis(86400001), ip, dec}[vrt.Choice("ext-literal", 4)]
+			body = ast.Value(lit).Equal(c)
 		case 0:
 			body = b.Like(types.NewPattern(types.String("a*"), types.Wildcard{}, types.String("\\"), types.Wildcard{}))
 		case 1:
